@@ -485,7 +485,7 @@ func C17(r *core.Run) {
 	r.Cov["exhaustive"] = len(deaths) == 0
 	ls := c17Lengths(r.Thorough())
 	r.Cov["bound"] = map[string]any{"lengths": len(ls), "window": []int{ls[0], ls[len(ls)-1]}, "commands": c17Cmds, "positions": 3, "final_newline": 2}
-	r.Cov["rule"] = "one long line of n bytes (every n in the window around 65536 and 2^k, 2^k+-1) first / in the middle / last among sentinel lines, with and without final newline, as input of every line-oriented code path (entry, included file, include and exclude file of include-except, cmdline word, format, renumber-tests, update-copyright, update); oracle: the command fails without writing, or the long line is carried through and every sentinel after it is present (regex semantics for generate, bytes for rewritten files)"
+	r.Cov["rule"] = "one long line of n bytes (every n in the window around 65536 and 2^k, 2^k+-1) first / in the middle / last among sentinel lines, with and without final newline, as input of every line-oriented code path (entry, included file, include and exclude file of include-except, cmdline word, format, renumber-tests, update-copyright, update); oracle: the command fails without writing, or the long line is carried through and every sentinel after it is present (regex semantics for generate, bytes for rewritten files); the include-except case carries twin long entries that differ only at their end; stage large: files of 10..3000 blocks (with and without one long line) rewritten by update-copyright to longer / equal version text, and generate, format, renumber-tests over thousands of lines"
 	r.Cov["samples"] = []any{c17Case{"generate include-except", 65536, "middle", false}, c17Case{"update-copyright", 1 << 17, "first", true}}
 	r.Assume = append(r.Assume, "not all 2^20 lengths are enumerated: a complete window around the scanner limit plus power-of-two boundaries (cost is quadratic)")
 }
